@@ -1,0 +1,13 @@
+//go:build verif
+
+package group
+
+// Export for the C17 correspondence driver (administrative API): the lock
+// under which UpdateDescription, UpdateUser, SetUserPassword, SetKeys,
+// DeleteUser and DeleteDescription do their read-modify-write of a group
+// file.  Holding it lets the driver play "another administrator's update is
+// in its locked section" deterministically.  Add-only.
+
+func VerifDescriptionsLock() { groups.mu.Lock() }
+
+func VerifDescriptionsUnlock() { groups.mu.Unlock() }
